@@ -27,13 +27,17 @@ func verifConnectState(w1, wr, wp int) *verifConnectEnv {
 	e := &verifConnectEnv{}
 	e.o = verifOutState(4, 4, w1, wr, wp, 0)
 	c := e.o.c
-	cid := verifBytes("cid", verifChoose("cidlen", 2))
+	light := verifParam("light", 0) == 1 // reduced configuration space when the harness serves another property
+	cid := verifBytes("cid", verifChoose("cidlen", 2-verifParam("light", 0)))
 	e.o.store.put(clientIDKey, verifRecord(cid, 1))
 	e.ref = &verifRefConnect{clientID: cid}
 	c.Config.CleanSession = verifBool("clean")
 	c.Config.KeepAlive = verifU16("keepalive")
 	e.ref.keepAlive = c.Config.KeepAlive
-	opt := verifChoose("options", 3)
+	opt := 0
+	if !light {
+		opt = verifChoose("options", 3)
+	}
 	if opt == 1 {
 		c.Config.UserName = "u"
 		c.Config.Password = []byte{'p'}
@@ -79,9 +83,15 @@ func verifH_C18_connect() {
 	e := verifConnectState(w1, wr, wp)
 	c := e.o.c
 	conn := e.conn
-	e.d.fail = verifChoose("dialfails", 2) == 1
+	light := verifParam("light", 0) == 1
+	if !light {
+		e.d.fail = verifChoose("dialfails", 2) == 1
+	}
 	// the broker's reply: 0..5 arbitrary bytes, then EOF or silence
-	n := verifChoose("acklen", 6)
+	n := 4
+	if !light {
+		n = verifChoose("acklen", 6)
+	}
 	ack := verifBytes("ack", n)
 	conn.in = ack
 	conn.rEOF = verifChoose("eof", 2) == 1
